@@ -2,7 +2,8 @@
 Resource manager rig (C18): turns an input of the RMNodes design model (an
 allocation as a batch system writes it + the pilot's layout) into environment
 variables, node files and a `qstat -f` answer, runs the REAL resource manager
-subclass (`Cls.__new__` + real `_init_from_scratch()`, i.e. the subclass's
+subclass (`Cls.__new__` + real `ResourceManager.__init__`, i.e. registry lookup,
+`_init_from_scratch()` with the subclass's
 `init_from_scratch`, `_parse_nodefile`, `_get_node_list`, the blocked core
 marking and `_filter_nodes`), and records one event per step for
 RMNodesTrace.tla:
@@ -11,8 +12,10 @@ RMNodesTrace.tla:
   Filtered   after the real `_filter_nodes` returned (partition)
   Done       after `_init_from_scratch` + `RMInfo.verify` (what is published)
   Failed     the initialisation raised
-  Recreated  what another component builds from the registry copy:
-             RMInfo(as_dict() sent twice through msgpack as the registry does)
+  Recreated  a second component of the same pilot: the real constructor again,
+             against the same in-memory registry, after the environment / the
+             node reachability changed; `fromreg` = it did not call
+             `_init_from_scratch` again
 
 Nothing of the RM is re-implemented here: the rig only writes the files, stubs
 the ssh reachability probe of backup nodes ("all reachable") and the `qstat`
@@ -129,6 +132,7 @@ def usable_g(c):
 class FakeProcess(object):
     '''stands for the ssh probe of _filter_nodes: every node is reachable'''
     probed = 0
+    down   = set()     # names of nodes which do not answer (second inspection only)
 
     def __init__(self, cmd):
         self.cmd, self.retcode, self.stdout, self.stderr = cmd, None, '', ''
@@ -137,9 +141,34 @@ class FakeProcess(object):
         FakeProcess.probed += 1
 
     def wait(self, timeout=None):
-        self.retcode = 0
+        self.retcode = 1 if any(d in self.cmd.split() for d in FakeProcess.down) else 0
 
     def cancel(self):
+        pass
+
+
+class FakeRegistry(object):
+    '''in-memory stand-in for ru.zmq.RegistryClient: get / put / close on a store
+       shared by the components of one pilot; values travel through msgpack as
+       they do between ru.zmq client and server'''
+    data = None
+
+    def __init__(self, url=None, **kw):
+        self.url = url
+
+    @staticmethod
+    def _wire(v):
+        return ru.as_string(ru.from_msgpack(ru.to_msgpack(v)))
+
+    def put(self, key, val):
+        self.data[key] = self._wire(val)
+
+    def get(self, key, default=None):
+        if key not in self.data:
+            return default
+        return self._wire(self.data[key])
+
+    def close(self):
         pass
 
 
@@ -176,8 +205,20 @@ class RMNodesRig(object):
         self.svc   = False
         self.ccm   = None
         os.chdir(self.wd)                 # ./services and Slurm's rm_info.json live in the cwd
+        # stand-ins for what is outside the RM, in place while the rig lives: the ssh
+        # probe, the qstat call, the registry client, the launch method preparation
+        self.qstat   = ('', 'qstat: command not found', 127)
+        self.patches = [
+            mock.patch.object(rmb, 'Process', FakeProcess),
+            mock.patch.object(ru, 'sh_callout', lambda *a, **k: self.qstat),
+            mock.patch.object(ru.zmq, 'RegistryClient', FakeRegistry),
+            mock.patch.object(rmb.ResourceManager, '_prepare_launch_methods', lambda rm: None)]
+        for p in self.patches:
+            p.start()
 
     def close(self):
+        for p in self.patches:
+            p.stop()
         os.chdir(self.old)
         for k, v in self.env0.items():
             if v is None:
@@ -291,8 +332,10 @@ class RMNodesRig(object):
     # --------------------------------------------------------------------------
     def run(self, c, mutate=None):
         '''returns the trace dict for RMNodesTrace'''
-        qstat  = self.materialise(c)
+        self.qstat = self.materialise(c)
         rm     = self.make_rm(c)
+        cfg, rcfg = rm._cfg, rm._rcfg
+        cfg['reg_addr'] = 'mem://registry'
         events = []
         if mutate:
             mutate(rm)
@@ -311,32 +354,54 @@ class RMNodesRig(object):
         rm._get_node_list = get_node_list
         rm._filter_nodes  = filter_nodes
 
-        info = None
-        try:
-            with mock.patch.object(rmb, 'Process', FakeProcess), \
-                 mock.patch.object(ru, 'sh_callout', lambda *a, **k: qstat):
-                info = rm._init_from_scratch()
-                info.verify()
-            events.append({'ev': 'Done', 'P': partition(info),
-                           'cpn': int(info.cores_per_node), 'gpn': int(info.gpus_per_node),
-                           'req': int(info.requested_nodes), 'tpc': int(info.threads_per_core)})
-        except Exception as e:
-            events.append({'ev': 'Failed', 'exc': type(e).__name__, 'msg': str(e)[:120]})
-            info = None
+        # the pilot's registry: one store shared by all components of this run
+        FakeRegistry.data = dict()
+        FakeProcess.down  = set()
 
-        if info is not None:
+        info = None
+        if True:
+
+            # ---- agent_0: the real constructor, from scratch ---------------------
             try:
-                d    = info.as_dict()
-                wire = d
-                for _ in range(2):               # client -> registry -> client
-                    wire = ru.as_string(ru.from_msgpack(ru.to_msgpack(wire)))
-                info2 = RMInfo(wire)
-                info2.verify()
-                events.append({'ev': 'Recreated', 'P': partition(info2),
-                               'same': bool(info2.as_dict() == d)})
+                rm.__init__(cfg, rcfg, self.log, self.log)
+                info = rm.info
+                events.append({'ev': 'Done', 'P': partition(info),
+                               'cpn': int(info.cores_per_node), 'gpn': int(info.gpus_per_node),
+                               'req': int(info.requested_nodes), 'tpc': int(info.threads_per_core)})
             except Exception as e:
-                events.append({'ev': 'Recreated', 'P': partition(RMInfo()), 'same': False,
-                               'exc': type(e).__name__})
+                events.append({'ev': 'Failed', 'exc': type(e).__name__, 'msg': str(e)[:120]})
+                info = None
+
+            # ---- another component of the same pilot, later: the environment and the
+            #      reachability of the nodes are not what agent_0 saw ----------------
+            if info is not None:
+                d = info.as_dict()
+                if (c['requested'] + c['agents']) % 2:
+                    for k in ENV_VARS:
+                        if k != 'HOME':
+                            os.environ.pop(k, None)
+                else:
+                    FakeProcess.down = {host_name(c['hosts'][0], c['rm'])}
+                cls   = type(rm)
+                rm2   = cls.__new__(cls)
+                calls = []
+                real_ifs = rm2._init_from_scratch
+
+                def init_from_scratch():
+                    calls.append(1)
+                    return real_ifs()
+
+                rm2._init_from_scratch = init_from_scratch
+                try:
+                    rm2.__init__(ru.Config(from_dict=cfg.as_dict()), ru.Config(from_dict=rcfg.as_dict()),
+                                 self.log, self.log)
+                    info2 = rm2.info
+                    events.append({'ev': 'Recreated', 'P': partition(info2), 'fromreg': not calls,
+                                   'same': bool(info2.as_dict() == d)})
+                except Exception as e:
+                    events.append({'ev': 'Recreated', 'P': partition(RMInfo()), 'fromreg': not calls,
+                                   'same': False, 'exc': type(e).__name__})
+                FakeProcess.down = set()
 
         tin = dict(c)
         return {'in': tin, 'events': events}
